@@ -6,6 +6,13 @@ import (
 )
 
 func GenerateConditional(conditional profile.ConditionalRule, iriExpander *misc.IriExpander) []BranchRegoResult {
+	if conditional.Negated && conditional.ElseIsDefined() {
+		// ¬((if → then) ∧ (¬if → else)) <==> (if ∧ ¬then) ∨ (¬if ∧ ¬else)
+		return GenerateOr(profile.NewOr(false, []profile.Rule{
+			profile.NewAnd(false, []profile.Rule{conditional.IfRule(), conditional.ThenRule().Negate()}),
+			profile.NewAnd(false, []profile.Rule{conditional.IfRule().Negate(), conditional.ElseRule().Negate()}),
+		}), iriExpander)
+	}
 	thenMaterialImplication := conditional.ThenMaterialImplication()
 	var results = GenerateOr(thenMaterialImplication, iriExpander)
 	if conditional.ElseIsDefined() {
